@@ -71,8 +71,33 @@ def detect(d, tier="quick"):
         drop(wt)
 
 
+def matrix():
+    """Run every confirmed seeded change against the check of its property; write seeded/RESULTS.md."""
+    import concurrent.futures as cf
+    ids = sorted(d for d in os.listdir("/verif/seeded") if os.path.isdir(os.path.join("/verif/seeded", d)))
+    claimed = {c["property_id"] for c in json.load(open("/verif/MANIFEST.json"))["checks"]}
+    rows = []
+    todo = [i for i in ids if json.load(open("/verif/seeded/%s/meta.json" % i))["property"] in claimed]
+    with cf.ThreadPoolExecutor(max_workers=4) as ex:
+        for r in ex.map(lambda i: detect("/verif/seeded/" + i), todo):
+            rows.append(r)
+            print(json.dumps(r)[:200]); sys.stdout.flush()
+    with open("/verif/seeded/RESULTS.md", "w") as f:
+        f.write("# Seeded changes vs. checks (quick tier, VERIF_REPO = scratch worktree with the patch applied)\n\n")
+        f.write("| seeded change | property | detected | kinds reported | what the change needs to manifest |\n|---|---|---|---|---|\n")
+        for r in sorted(rows, key=lambda r: r["id"]):
+            meta = json.load(open("/verif/seeded/%s/meta.json" % r["id"]))
+            kinds = sorted(set(w.split("kind=")[1].split()[0] for w in r["lines"] if "kind=" in w))
+            f.write("| %s | %s | %s | %s | %s |\n" % (r["id"], r["property"], "yes" if r["exit"] == 1 and kinds else "NO",
+                    ", ".join(kinds), meta.get("needs_to_manifest", "").replace("|", "/").replace("\n", " ")[:300]))
+    print("written seeded/RESULTS.md")
+
+
 if __name__ == "__main__":
     cmd = sys.argv[1]
+    if cmd == "matrix":
+        matrix()
+        sys.exit(0)
     args = [a for a in sys.argv[2:] if not a.startswith("--")]
     tier = "thorough" if "--thorough" in sys.argv else "quick"
     for d in args:
